@@ -96,7 +96,7 @@ def param_lists(rng, k, p):
     return [[mv() for _ in range(p)] for _ in range(k)], [[vv() for _ in range(p)] for _ in range(k)]
 
 
-def call(c, means, variances, seed):
+def call(c, means, variances, seed, positions=None):
     if c.get("seed_np"):
         seed = np.int64(seed)
     from skchange.datasets import generate_alternating_data, generate_anomalous_data, generate_changing_data
@@ -113,9 +113,11 @@ def call(c, means, variances, seed):
 
     pos = (lambda t: np.int64(t)) if form == 2 else (lambda t: t)
     if c["kind"] == "changing":
-        return generate_changing_data(pos(c["n"]), [pos(t) for t in c["cps"]], conv(means), conv(variances), seed)
+        where = [pos(t) for t in c["cps"]] if positions is None else positions
+        return generate_changing_data(pos(c["n"]), where, conv(means), conv(variances), seed)
     if c["kind"] == "anomalous":
-        return generate_anomalous_data(pos(c["n"]), [(pos(a[0]), pos(a[1])) for a in c["anoms"]], conv(means), conv(variances), seed)
+        where = [(pos(a[0]), pos(a[1])) for a in c["anoms"]] if positions is None else positions
+        return generate_anomalous_data(pos(c["n"]), where, conv(means), conv(variances), seed)
     return generate_alternating_data(pos(c["nseg"]), pos(c["seglen"]), c["p"], conv(means), conv(variances), c["prop"], seed)
 
 
@@ -145,8 +147,22 @@ def impl(c):
             b = call(c, c["mean"], c["var"], c["seed"])
         else:
             means_before = json.dumps(c["means"])
-            a = call(c, c["means"], c["vars"], c["seed"])
-            b = call(c, c["means"], c["vars"], c["seed"])
+            shared = None
+            if not c.get("bad") and core._bits(c, 16, 3) == 0 and isinstance(c["means"], list) and c["means"] and isinstance(c["means"][0], list):
+                # the caller's own list of positions is first used in a call that is rejected while the data are being built
+                # (one mean vector too long), then re-used for the judged calls: it must come back unchanged every time
+                shared = list(c["cps"]) if c["kind"] == "changing" else [tuple(a) for a in c["anoms"]]
+                before = json.dumps(shared)
+                broken = [list(m) for m in c["means"]]
+                broken[-1] = broken[-1] + [0.0]
+                try:
+                    call(c, broken, c["vars"], c["seed"], positions=shared)
+                except Exception:
+                    pass
+                if json.dumps(shared) != before:
+                    return {"outcome": "other:caller-list-modified", "msg": f"the caller's list of positions {before} came back as {json.dumps(shared)} from a rejected call"}
+            a = call(c, c["means"], c["vars"], c["seed"], positions=shared)
+            b = call(c, c["means"], c["vars"], c["seed"], positions=shared)
             assert json.dumps(c["means"]) == means_before
         z = call(c, *neutral(c), c["seed"])
         return {"outcome": "ok", "out": a.to_numpy().tolist(), "again": bool(a.equals(b)), "z": z.to_numpy().tolist(),
